@@ -1,8 +1,8 @@
 package harness
 
 import (
-	"strings"
 	"fmt"
+	"strings"
 	"testing"
 	"time"
 
